@@ -1,6 +1,7 @@
 package main
 
 import (
+	"berty.tech/go-orbit-db/iface"
 	"context"
 	"encoding/json"
 	"fmt"
@@ -60,6 +61,13 @@ func (r *irRun) violate(kind, detail string, exp, got interface{}) {
 func irMarker(g int) string { return fmt.Sprintf("w%d!", g) }
 
 func (r *irRun) put(ctx context.Context, ref *sim.StoreRef, key, val string) (ipfslog.Entry, error) {
+	if r.in.Type == "log" {
+		op, err := ref.S.(orbitdb.EventLogStore).Add(ctx, []byte(val))
+		if err != nil {
+			return nil, err
+		}
+		return op.GetEntry(), nil
+	}
 	if r.in.Type == "doc" {
 		op, err := ref.S.(orbitdb.DocumentStore).Put(ctx, map[string]interface{}{"_id": key, "abs": val})
 		if err != nil {
@@ -96,6 +104,9 @@ func (r *irRun) shownNow(key string) string {
 
 func opValue(stype string, e ipfslog.Entry) (key, val string) {
 	op, err := operation.ParseOperation(e)
+	if err == nil && stype == "log" {
+		return "log", string(op.GetValue())
+	}
 	if err != nil || op.GetKey() == nil {
 		return "", ""
 	}
@@ -121,6 +132,30 @@ func (r *irRun) shown(key string) (string, bool) {
 	case <-time.After(60 * time.Millisecond):
 		return "", false
 	}
+}
+
+// listed returns the values an event log lists (List with amount -1), in order.
+func (r *irRun) listed(ref *sim.StoreRef) []string {
+	all := -1
+	ops, err := ref.S.(orbitdb.EventLogStore).List(context.Background(), &iface.StreamOptions{Amount: &all})
+	out := []string{}
+	if err != nil {
+		return []string{"error: " + err.Error()}
+	}
+	for _, op := range ops {
+		out = append(out, string(op.GetValue()))
+	}
+	return out
+}
+
+// logValues returns the values of the log's entries in the log's total order.
+func (r *irRun) logValues(ref *sim.StoreRef) []string {
+	out := []string{}
+	for _, e := range ref.S.OpLog().Values().Slice() {
+		_, v := opValue("log", e)
+		out = append(out, v)
+	}
+	return out
 }
 
 // replay is the last-writer-wins replay of the store's own log in its own total order.
@@ -235,6 +270,34 @@ func (r *irRun) apply(st Step) error {
 	if len(st.Args) > 0 {
 		g = asInt(st.Args[0])
 	}
+	if r.in.Type == "log" {
+		// the event log's index keeps a reference to the log, not a copy: its update is one step, taken where the
+		// model patches the view; reading and waiting are not steps of its own
+		switch st.Action {
+		case "WIndexWait", "WIndexRead", "BIndexWait", "BIndexRead":
+			return nil
+		case "WIndexWrite":
+			p := r.writerAt("write.persisted", g, d)
+			if p == nil {
+				return fmt.Errorf("writer %d is not between persisting its head and updating the view", g)
+			}
+			h.Release(p)
+			if r.writerAt("write.indexed", g, d) == nil {
+				return fmt.Errorf("writer %d did not finish its index update", g)
+			}
+			return nil
+		case "BIndexWrite":
+			p := parkedFor("join.log", r.mine, d)
+			if p == nil {
+				return fmt.Errorf("batch is not between join and index update")
+			}
+			h.Release(p)
+			if parkedFor("join.indexed", r.mine, d) == nil {
+				return fmt.Errorf("batch did not finish its index update")
+			}
+			return nil
+		}
+	}
 	switch st.Action {
 	case "Init":
 	case "WAppend":
@@ -309,6 +372,13 @@ func (r *irRun) apply(st Step) error {
 			return nil
 		}
 		// the call has returned, its write event has been emitted: the view shows this entry or a later one of the key
+		if r.in.Type == "log" {
+			r.res.Comparisons++
+			if l := r.listed(r.ref); !containsStr(l, irMarker(g)) {
+				r.violate("ack-not-shown", fmt.Sprintf("Add %d has returned and the event log does not list its entry (listed: %v)", g, l), irMarker(g), l)
+			}
+			return nil
+		}
 		key := r.in.Keys[fmt.Sprint(g)]
 		r.res.Comparisons++
 		ok := false
@@ -380,7 +450,19 @@ func (r *irRun) apply(st Step) error {
 	return nil
 }
 
+func containsStr(l []string, x string) bool {
+	for _, y := range l {
+		if y == x {
+			return true
+		}
+	}
+	return false
+}
+
 func (r *irRun) compareView(st map[string]interface{}) {
+	if r.in.Type == "log" {
+		return
+	}
 	// the map as the specification has it: key -> entry id
 	want := asMap(st["view"])
 	for k, v := range want {
@@ -478,8 +560,17 @@ func (r *irRun) run(b Behaviour, idx int) {
 		r.res.Inconclusive = append(r.res.Inconclusive, b.ID+": "+err.Error())
 		return
 	}
-	// at rest: the view is the last-writer-wins replay of the log
 	r.step = -1
+	if r.in.Type == "log" {
+		// at rest: the listing is the log in its total order
+		r.res.Comparisons++
+		want, got := r.logValues(r.ref), r.listed(r.ref)
+		if fmt.Sprint(want) != fmt.Sprint(got) {
+			r.violate("rest-view", fmt.Sprintf("at rest the event log holds %d entries and lists %d: the listing differs from the log", len(want), len(got)), want, got)
+		}
+		return
+	}
+	// at rest: the view is the last-writer-wins replay of the log
 	r.res.Comparisons++
 	want := r.replay()
 	got := map[string]string{}
